@@ -2001,7 +2001,6 @@ class LazyStackedTensorDict(TensorDictBase):
             local_out = td._multithread_rebuild(
                 batch_size=batch_size,
                 device=device,
-                names=names,
                 inplace=inplace,
                 checked=checked,
                 out=local_out,
